@@ -121,6 +121,8 @@ pub struct Monitor {
     pub in_owner_poll: bool,
     pub violations: Vec<Violation>,
     pub sends: u64,
+    /// The read side reported an error: the component is shutting the connection down.
+    pub read_failed: bool,
 }
 
 pub const SPIN_LIMIT: u32 = 64;
@@ -197,7 +199,7 @@ impl Monitor {
     pub fn owner_poll_end(&mut self, side: &str, pending: bool) {
         self.in_owner_poll = false;
         self.not_ready_in_poll = 0;
-        if pending && self.unflushed > 0 && !self.flush_pending && !self.failed && !self.closed {
+        if pending && self.unflushed > 0 && !self.flush_pending && !self.failed && !self.closed && !self.read_failed {
             self.v(
                 "idle-unflushed",
                 &[side],
@@ -333,6 +335,7 @@ impl<In: Describe, Out> Stream for SimTransport<In, Out> {
         let link = st.id;
         st.next_calls += 1;
         if st.fault(Op2::Next) {
+            st.mon.read_failed = true;
             drop(st);
             if let Some(s) = cur() {
                 s.count("fault.err_next");
@@ -425,12 +428,30 @@ impl<In, Out: Describe> Sink<Out> for SimTransport<In, Out> {
         let side = st.side;
         st.mon.on_send(side, &d);
         if st.fault(Op2::Send) {
+            st.mon.unflushed = st.mon.unflushed.saturating_sub(1);
+            if matches!(d, Item::Cancel { .. } | Item::Resp { .. }) {
+                // the component treats this write failure as terminal and shuts down
+                st.mon.read_failed = true;
+            }
             drop(st);
             if let Some(s) = cur() {
                 s.count("fault.err_send");
             }
             log_op(link, Op::Send, Res::Err, Some(d));
             return Err(SimErr("injected write failure".into()));
+        }
+        // A bounded sink rejects an item it has no room for (as futures' bounded Sender does).
+        let full = st.cfg.cap > 0
+            && if st.cfg.coupled { st.staged.len() >= st.cfg.cap } else { st.wire.len() >= st.cfg.cap };
+        if full {
+            st.mon.unflushed = st.mon.unflushed.saturating_sub(1);
+            st.mon.read_failed = true;
+            drop(st);
+            if let Some(s) = cur() {
+                s.log(EvKind::Fault { kind: "reject_unready_write", arg: 0 });
+            }
+            log_op(link, Op::Send, Res::Err, Some(d));
+            return Err(SimErr("start_send called while the sink was full".into()));
         }
         if st.cfg.coupled {
             st.staged.push_back(item);
@@ -693,6 +714,7 @@ where
         preempt("tap:next");
         let link = self.st.borrow().id;
         if self.st.borrow_mut().fault(Op2::Next) {
+            self.st.borrow_mut().mon.read_failed = true;
             if let Some(s) = cur() {
                 s.count("fault.err_next");
             }
